@@ -325,6 +325,7 @@ func (e *kvEnv) step(s kvStep) string {
 	if s.X {
 		ctx = context.WithValue(ctx, kvCtxKey{}, "c12")
 	}
+	before := e.counts()
 	got, gerr := ent.wrap(e.store, ctx, s)
 	defer e.noteErr(gerr)
 	if gerr == breaker.ErrServiceUnavailable {
@@ -349,7 +350,31 @@ func (e *kvEnv) step(s kvStep) string {
 			return fmt.Sprintf("store returned %s, one server holding all keys returns %s", g, w)
 		}
 	}
+	// a single-key command reaches exactly one shard, and that shard processes as
+	// many commands as the single server does (Del is sent per key by design)
+	if s.C != "Del" {
+		after := e.counts()
+		touched, sum := 0, 0
+		for i := 1; i < len(after); i++ {
+			if d := after[i] - before[i]; d != 0 {
+				touched++
+				sum += d
+			}
+		}
+		if ref := after[0] - before[0]; sum != ref || touched > 1 {
+			return fmt.Sprintf("the store made %d shard(s) process %d commands, the single server processed %d", touched, sum, ref)
+		}
+	}
 	return ""
+}
+
+// counts: processed-command counters, [0] = reference server, [1..] = shards.
+func (e *kvEnv) counts() []int {
+	out := []int{kvRefSrv.CommandCount()}
+	for i := range kvShards {
+		out = append(out, kvShards[i].CommandCount())
+	}
+	return out
 }
 
 // ---------------------------------------------------------------- generator
